@@ -1,5 +1,4 @@
-(* The oracle of MxOracle.v accepts every observation the model itself produces (for environments
-   without a custom variable named "", the negated signature of the recorded finding): it can only
+(* The oracle of MxOracle.v accepts every observation the model itself produces: it can only
    fire where the implementation leaves what the theorems establish. *)
 From Icv Require Import Base.Tac Macro.MxDefs Macro.MxModel Macro.MxProofs Macro.MxOracle.
 From Coq Require Import NArith.
@@ -11,37 +10,9 @@ Proof. induction l; cbn; [reflexivity|]. rewrite mx_beq_refl. assumption. Qed.
 Lemma mx_cmdres_beq_refl r : mx_cmdres_beq r r = true.
 Proof. destruct r; cbn; [apply mx_list_beq_refl|apply mx_beq_refl|reflexivity]. Qed.
 
-Lemma mx_remove_key_id {A} (d : list (mx_bytes * A)) : mx_assoc [] d = None -> mx_remove_key [] d = d.
-Proof.
-  induction d as [|[k v] d IH]; [reflexivity|]. cbn [mx_assoc mx_remove_key].
-  destruct (mx_beq [] k).
-  - intros X. discriminate X.
-  - intros H. rewrite IH by exact H. reflexivity.
-Qed.
-
-Lemma mx_sanitize_id env : mx_env_has_empty_var env = false -> mx_sanitize env = env.
-Proof.
-  unfold mx_sanitize, mx_env_has_empty_var.
-  induction env as [|l env IH]; cbn [List.map existsb]; [reflexivity|]. intros H. apply orb_false_iff in H as [H1 H2].
-  rewrite IH by exact H2. f_equal. unfold mx_sanitize_level, mx_level_has_empty_var in *.
-  destruct l as [n s vars m f]; cbn in *. destruct vars as [d|]; [|reflexivity]. cbn.
-  destruct (mx_assoc [] d) eqn:E; [discriminate|]. rewrite mx_remove_key_id by exact E. reflexivity.
-Qed.
-
-Lemma mx_no_empty_var_b env : mx_env_has_empty_var env = false <-> mx_no_empty_var env.
-Proof.
-  unfold mx_no_empty_var, mx_env_has_empty_var. induction env as [|l env IH]; cbn [existsb]; [split; [constructor|reflexivity]|].
-  rewrite orb_false_iff, IH. unfold mx_level_has_empty_var. split.
-  - intros [H1 H2]. constructor; [|exact H2]. destruct (mx_lv_vars l) as [d|]; [|exact I]. destruct (mx_assoc [] d); [discriminate|reflexivity].
-  - intros H. inv H. split; [|assumption]. destruct (mx_lv_vars l) as [d|]; [|reflexivity]. rewrite H2. reflexivity.
-Qed.
-
 Lemma mx_oracle_resolve_accepts env command arguments :
-  mx_env_has_empty_var env = false ->
   mx_oracle_resolve env command arguments (mx_resolve_arguments env command arguments) = None.
-Proof.
-  intros H. unfold mx_oracle_resolve. rewrite mx_sanitize_id by exact H. rewrite mx_cmdres_beq_refl. reflexivity.
-Qed.
+Proof. unfold mx_oracle_resolve. rewrite mx_cmdres_beq_refl. reflexivity. Qed.
 
 Lemma mx_finish_exit e o : mx_cr_exit (mx_finish e o) = e /\ mx_cr_state (mx_finish e o) = mx_exit_to_state e.
 Proof. unfold mx_finish. destruct (mx_parse_check_output _). split; reflexivity. Qed.
@@ -61,12 +32,10 @@ Proof.
 Qed.
 
 Lemma mx_oracle_exec_accepts env command arguments plugin_exit plugin_out :
-  mx_env_has_empty_var env = false ->
   mx_plugin_argv (mx_resolve_arguments env command arguments) <> MxArgvUnknown ->
   mx_oracle_exec env command arguments plugin_exit plugin_out (mx_observe_exec env command arguments plugin_exit plugin_out) = None.
 Proof.
-  intros H Hu. unfold mx_oracle_exec. rewrite mx_sanitize_id by exact H.
-  rewrite mx_exec_check_accepts by exact Hu. reflexivity.
+  intros Hu. unfold mx_oracle_exec. apply mx_exec_check_accepts. exact Hu.
 Qed.
 
 Lemma mx_oracle_escape_accepts v : ~ In 0 v -> mx_oracle_escape v (mx_escape_shell_arg v) = None.
